@@ -157,6 +157,9 @@ pub(crate) fn traverse_with_callbacks(
     decycler: &mut PaintDecycler,
     resolved_stops: &mut ColorStopVec,
     recurse_depth: usize,
+    // True while `painter` is (wrapped in) a `CollectFillGlyphPainter`, i.e. while an
+    // enclosing `PaintGlyph` is attempting the fill optimization.
+    collecting_fill: bool,
 ) -> Result<(), PaintError> {
     #[cfg(googlefonts_fontations_verif)]
     verif::count_visit();
@@ -176,6 +179,7 @@ pub(crate) fn traverse_with_callbacks(
                     &mut cycle_guard,
                     resolved_stops,
                     recurse_depth + 1,
+                    collecting_fill,
                 )?;
             }
             Ok(())
@@ -479,6 +483,25 @@ pub(crate) fn traverse_with_callbacks(
 
         ResolvedPaint::Glyph { glyph_id, paint } => {
             let glyph_id = (*glyph_id).into();
+            if collecting_fill {
+                // An enclosing PaintGlyph is already collecting: the clip pushed for this glyph
+                // ends that optimization whatever we do here, so attempting our own (which
+                // traverses the subtree twice when it fails) only multiplies the work, doubling
+                // it for every level of PaintGlyph nesting. Do a single unoptimized pass instead.
+                let child = resolve_paint(instance, paint)?;
+                painter.push_clip_glyph(glyph_id);
+                let result = traverse_with_callbacks(
+                    &child,
+                    instance,
+                    painter,
+                    decycler,
+                    resolved_stops,
+                    recurse_depth + 1,
+                    collecting_fill,
+                );
+                painter.pop_clip();
+                return result;
+            }
             let mut optimizer = CollectFillGlyphPainter::new(painter, glyph_id);
             let mut result = traverse_with_callbacks(
                 &resolve_paint(instance, paint)?,
@@ -487,6 +510,7 @@ pub(crate) fn traverse_with_callbacks(
                 decycler,
                 resolved_stops,
                 recurse_depth + 1,
+                true,
             );
 
             // In case the optimization was not successful, just push a clip, and continue unoptimized traversal.
@@ -499,6 +523,7 @@ pub(crate) fn traverse_with_callbacks(
                     decycler,
                     resolved_stops,
                     recurse_depth + 1,
+                    collecting_fill,
                 );
                 painter.pop_clip();
             }
@@ -527,6 +552,7 @@ pub(crate) fn traverse_with_callbacks(
                                 &mut cycle_guard,
                                 resolved_stops,
                                 recurse_depth + 1,
+                                collecting_fill,
                             );
                             if clipbox.is_some() {
                                 painter.pop_clip();
@@ -561,6 +587,7 @@ pub(crate) fn traverse_with_callbacks(
                 decycler,
                 resolved_stops,
                 recurse_depth + 1,
+                collecting_fill,
             );
             painter.pop_transform();
             result
@@ -578,6 +605,7 @@ pub(crate) fn traverse_with_callbacks(
                 decycler,
                 resolved_stops,
                 recurse_depth + 1,
+                collecting_fill,
             );
             result?;
             painter.push_layer(*mode);
@@ -588,6 +616,7 @@ pub(crate) fn traverse_with_callbacks(
                 decycler,
                 resolved_stops,
                 recurse_depth + 1,
+                collecting_fill,
             );
             painter.pop_layer_with_mode(*mode);
             painter.pop_layer_with_mode(CompositeMode::SrcOver);
